@@ -5,7 +5,7 @@ import RNacos.Gen.WritePath
 
 What r-nacos adds to Raft on this path is small: routing to the leader and *telling the client the truth* about the
 outcome.  This file proves the second: with every `Result` on the write path propagated – which the translator reads
-off the source on every run (13 call sites) – a client is told "success" only if Raft committed the entry, on every
+off the source on every run (13 call sites and the two success exits of the router) – a client is told "success" only if Raft committed the entry, on every
 route.  "Committed entries survive any minority of crashes and all nodes apply them in the same order" is Raft's
 guarantee given a correct `RaftStorage` (C02–C05, C07: the log returns what was appended, truncation is exact, term /
 vote / membership are durable, the three apply paths agree) and async-raft itself, which is trusted, not verified.
